@@ -1,18 +1,963 @@
-//! C12 — not built yet (stub).
+//! C12 — a saved file contains only content of the workbook being saved (E2, history tree).
+//!
+//! State: up to three workbook handles (original, clones, reloaded copies) + a reference model per handle
+//! (the text a caller expects in every cell).  Texts are markers (mk_ALPHA ...), so every string found in a
+//! package can be traced to the step of the history that produced it.  Oracle at every save: the strings of
+//! the package (own zip/XML decoder, c12_pkg.rs) == the strings of the handle's model.
+//!
+//! Sharing: `Spreadsheet::clone()` copies the handle of the shared-string table, and a save mutates that
+//! table through `&Spreadsheet`.  A search node therefore cannot be forked by cloning its real objects (the
+//! fork would share the table with its siblings).  Real objects are REBUILT from `new_file()` by replaying
+//! the node's history whenever a table-mutating operation (save, reload) is about to be applied; all other
+//! operations are applied to clones of the rebuilt objects (they never touch the table).  Nodes are never
+//! merged (the table content is not observable without a save): the search is the complete history tree.
 use crate::common::*;
+use crate::dump;
+use crate::e1::*;
+use crate::e2::{self, Machine};
 use crate::pool::*;
-use serde_json::Value;
+use serde_json::{json, Value};
+use std::cell::RefCell;
+use std::collections::{BTreeMap, BTreeSet, HashSet};
+use umya_spreadsheet::Spreadsheet;
+
+#[path = "c12_pkg.rs"]
+mod pkg;
+use pkg::{CellTxt, Content};
 
 pub fn entry() -> crate::Entry {
     crate::Entry { id: "C12", run, space, replay }
 }
-pub fn space(_tier: Tier, _id: &str) -> Option<Box<dyn Space>> {
-    None
+
+const PREFIX: &str = "mk_";
+const MARKERS: [&str; 5] = ["mk_ALPHA", "mk_BETA", "mk_GAMMA", "mk_DELTA", "mk_EPSILON"];
+/// marker 4 is written as a rich text of two runs
+const RICH: u8 = 4;
+const RICH_RUNS: [&str; 2] = ["mk_EPS", "ILON"];
+const SHEET1: &str = "Sheet1";
+const SHEET2: &str = "S2";
+const MAX_HANDLES: usize = 3;
+
+// feature tags (kinds of operation that occur in the history)
+const K_SET: u16 = 1;
+const K_OVERWRITE: u16 = 2;
+const K_DELCELL: u16 = 4;
+const K_REMROW: u16 = 8;
+const K_ADDSHEET: u16 = 16;
+const K_REMSHEET: u16 = 32;
+const K_CLONE: u16 = 64;
+const K_SAVE: u16 = 128;
+const K_RELOAD: u16 = 256;
+const K_RICH: u16 = 512;
+const KIND_NAMES: [(u16, &str); 10] = [
+    (K_SET, "set"),
+    (K_OVERWRITE, "overwrite"),
+    (K_DELCELL, "delete-cell"),
+    (K_REMROW, "remove-row"),
+    (K_ADDSHEET, "add-sheet"),
+    (K_REMSHEET, "remove-sheet"),
+    (K_CLONE, "clone"),
+    (K_SAVE, "save"),
+    (K_RELOAD, "reload"),
+    (K_RICH, "rich-text"),
+];
+
+// how a string left a handle's model
+const O_NONE: u8 = 0;
+const O_OVERWRITTEN: u8 = 1;
+const O_DELCELL: u8 = 2;
+const O_REMROW: u8 = 3;
+const O_REMSHEET: u8 = 4;
+const O_CLONE_SOURCE: u8 = 5;
+fn origin_name(o: u8) -> &'static str {
+    match o {
+        O_OVERWRITTEN => "overwritten",
+        O_DELCELL => "deleted-cell",
+        O_REMROW => "removed-row",
+        O_REMSHEET => "removed-sheet",
+        O_CLONE_SOURCE => "lost-by-clone-source",
+        _ => "?",
+    }
 }
-fn replay(_tier: Tier, _case: &Value) -> Vec<Violation> {
-    vec![]
+
+#[derive(Clone, Copy, PartialEq, Eq, Debug)]
+enum Op {
+    Set { h: u8, row: u8, m: u8 },
+    DelCell { h: u8, row: u8 },
+    RemRow { h: u8, row: u8 },
+    AddSheet { h: u8, m: u8 },
+    RemSheet { h: u8 },
+    CloneH { h: u8 },
+    Save { h: u8, twice: bool },
+    Reload { h: u8 },
 }
-fn run(_ctx: &Ctx) -> i32 {
-    eprintln!("MACHINERY: C12 is not built yet");
-    2
+impl Op {
+    fn mutates_table(&self) -> bool {
+        matches!(self, Op::Save { .. } | Op::Reload { .. })
+    }
+    fn to_json(&self) -> Value {
+        match *self {
+            Op::Set { h, row, m } => json!({"op":"set_text","handle":h,"cell":format!("A{}",row),"text":MARKERS[m as usize],"rich": m==RICH}),
+            Op::DelCell { h, row } => json!({"op":"remove_cell","handle":h,"cell":format!("A{}",row)}),
+            Op::RemRow { h, row } => json!({"op":"remove_row","handle":h,"row":row}),
+            Op::AddSheet { h, m } => json!({"op":"add_sheet_with_text","handle":h,"sheet":SHEET2,"cell":"A1","text":MARKERS[m as usize]}),
+            Op::RemSheet { h } => json!({"op":"remove_sheet","handle":h,"sheet":SHEET2}),
+            Op::CloneH { h } => json!({"op":"clone","handle":h}),
+            Op::Save { h, twice } => json!({"op": if twice {"save_twice"} else {"save"},"handle":h}),
+            Op::Reload { h } => json!({"op":"reload","handle":h}),
+        }
+    }
+}
+
+/// reference model of one handle
+#[derive(Clone, Copy, PartialEq, Eq, Debug)]
+struct HM {
+    /// Sheet1!A1, Sheet1!A2
+    s1: [Option<u8>; 2],
+    /// second sheet exists, with this marker in A1
+    s2: Option<u8>,
+    /// identity of "objects related by clone() without a reload in between" (labels only)
+    family: u8,
+    /// per marker: how it last left this handle's model (labels only)
+    lost: [u8; 5],
+    /// markers this object itself has saved (labels only)
+    self_saved: u8,
+}
+impl HM {
+    fn mask(&self) -> u8 {
+        let mut m = 0;
+        for c in self.s1.iter().flatten() {
+            m |= 1 << c;
+        }
+        if let Some(c) = self.s2 {
+            m |= 1 << c;
+        }
+        m
+    }
+    fn sheets(&self) -> Vec<(String, BTreeMap<(u32, u32), String>)> {
+        let mut a = BTreeMap::new();
+        for (i, c) in self.s1.iter().enumerate() {
+            if let Some(c) = c {
+                a.insert((1u32, i as u32 + 1), MARKERS[*c as usize].to_string());
+            }
+        }
+        let mut v = vec![(SHEET1.to_string(), a)];
+        if let Some(c) = self.s2 {
+            let mut b = BTreeMap::new();
+            b.insert((1u32, 1u32), MARKERS[c as usize].to_string());
+            v.push((SHEET2.to_string(), b));
+        }
+        v
+    }
+    fn note_change(&mut self, before: u8, origin: u8) {
+        let after = self.mask();
+        for x in 0..5u8 {
+            let b = 1 << x;
+            if before & b != 0 && after & b == 0 {
+                self.lost[x as usize] = origin;
+            }
+            if after & b != 0 {
+                self.lost[x as usize] = O_NONE;
+            }
+        }
+    }
+}
+
+#[derive(Clone, Debug)]
+struct St {
+    path: Vec<Op>,
+    hs: Vec<HM>,
+    /// per family: markers saved by any member since the family exists / markers that may have been in the
+    /// file the family's first member was loaded from (labels only)
+    fam_saved: Vec<u8>,
+    fam_loaded: Vec<u8>,
+    /// markers ever put into any handle
+    ever: u8,
+    kinds: u16,
+}
+impl St {
+    fn root() -> St {
+        St { path: vec![], hs: vec![HM { s1: [None, None], s2: None, family: 0, lost: [0; 5], self_saved: 0 }], fam_saved: vec![0], fam_loaded: vec![0], ever: 0, kinds: 0 }
+    }
+    fn tags(&self) -> Vec<&'static str> {
+        KIND_NAMES.iter().filter(|(b, _)| self.kinds & b != 0).map(|(_, n)| *n).collect()
+    }
+}
+
+fn model_step(s: &St, op: &Op) -> St {
+    let mut n = s.clone();
+    n.path.push(*op);
+    match *op {
+        Op::Set { h, row, m } => {
+            let hm = &mut n.hs[h as usize];
+            let before = hm.mask();
+            let had = hm.s1[row as usize - 1].is_some();
+            hm.s1[row as usize - 1] = Some(m);
+            hm.note_change(before, O_OVERWRITTEN);
+            n.ever |= 1 << m;
+            n.kinds |= if had { K_OVERWRITE } else { K_SET };
+            if m == RICH {
+                n.kinds |= K_RICH;
+            }
+        }
+        Op::DelCell { h, row } => {
+            let hm = &mut n.hs[h as usize];
+            let before = hm.mask();
+            hm.s1[row as usize - 1] = None;
+            hm.note_change(before, O_DELCELL);
+            n.kinds |= K_DELCELL;
+        }
+        Op::RemRow { h, row } => {
+            let hm = &mut n.hs[h as usize];
+            let before = hm.mask();
+            if row == 1 {
+                hm.s1[0] = hm.s1[1];
+            }
+            hm.s1[1] = None;
+            hm.note_change(before, O_REMROW);
+            n.kinds |= K_REMROW;
+        }
+        Op::AddSheet { h, m } => {
+            let hm = &mut n.hs[h as usize];
+            let before = hm.mask();
+            hm.s2 = Some(m);
+            hm.note_change(before, O_NONE);
+            n.ever |= 1 << m;
+            n.kinds |= K_ADDSHEET;
+            if m == RICH {
+                n.kinds |= K_RICH;
+            }
+        }
+        Op::RemSheet { h } => {
+            let hm = &mut n.hs[h as usize];
+            let before = hm.mask();
+            hm.s2 = None;
+            hm.note_change(before, O_REMSHEET);
+            n.kinds |= K_REMSHEET;
+        }
+        Op::CloneH { h } => {
+            let mut c = n.hs[h as usize];
+            for x in c.lost.iter_mut() {
+                if *x != O_NONE {
+                    *x = O_CLONE_SOURCE;
+                }
+            }
+            c.self_saved = 0;
+            n.hs.push(c);
+            n.kinds |= K_CLONE;
+        }
+        Op::Save { h, .. } => {
+            let m = n.hs[h as usize].mask();
+            n.hs[h as usize].self_saved |= m;
+            n.fam_saved[n.hs[h as usize].family as usize] |= m;
+            n.kinds |= K_SAVE;
+        }
+        Op::Reload { h } => {
+            let m = n.hs[h as usize].mask();
+            let f = n.hs[h as usize].family as usize;
+            n.fam_saved[f] |= m;
+            let maybe_in_file = n.fam_saved[f] | n.fam_loaded[f];
+            n.fam_saved.push(0);
+            n.fam_loaded.push(maybe_in_file);
+            n.hs[h as usize].family = (n.fam_saved.len() - 1) as u8;
+            n.hs[h as usize].self_saved = 0;
+            n.kinds |= K_RELOAD;
+        }
+    }
+    n
+}
+
+#[derive(Clone, Copy)]
+struct Alpha {
+    /// total operations of a history, the last one being a save
+    d: usize,
+    /// markers of this space (4 = the rich-text marker)
+    markers: &'static [u8],
+    /// markers a second sheet can be created with
+    sheet_markers: [u8; 2],
+}
+
+fn enabled_ops(a: &Alpha, s: &St) -> Vec<Op> {
+    let nh = s.hs.len() as u8;
+    let mut v = vec![];
+    if s.path.len() + 1 >= a.d {
+        // last layer: only an observation can produce a verdict
+        for h in 0..nh {
+            v.push(Op::Save { h, twice: true });
+        }
+        return v;
+    }
+    for h in 0..nh {
+        let hm = &s.hs[h as usize];
+        for row in 1..=2u8 {
+            for &m in a.markers {
+                if hm.s1[row as usize - 1] != Some(m) {
+                    v.push(Op::Set { h, row, m });
+                }
+            }
+        }
+        for row in 1..=2u8 {
+            if hm.s1[row as usize - 1].is_some() {
+                v.push(Op::DelCell { h, row });
+            }
+        }
+        if hm.s1[0].is_some() || hm.s1[1].is_some() {
+            v.push(Op::RemRow { h, row: 1 });
+        }
+        if hm.s1[1].is_some() {
+            v.push(Op::RemRow { h, row: 2 });
+        }
+        match hm.s2 {
+            None => {
+                for m in a.sheet_markers {
+                    if !v.contains(&Op::AddSheet { h, m }) {
+                        v.push(Op::AddSheet { h, m });
+                    }
+                }
+            }
+            Some(_) => v.push(Op::RemSheet { h }),
+        }
+    }
+    if (nh as usize) < MAX_HANDLES {
+        for h in 0..nh {
+            v.push(Op::CloneH { h });
+        }
+    }
+    for h in 0..nh {
+        v.push(Op::Save { h, twice: false });
+    }
+    for h in 0..nh {
+        v.push(Op::Reload { h });
+    }
+    v
+}
+
+// ------------------------------------------------------------------------------------------------
+// the implementation side
+
+/// Writer of the second save of a last-layer `save_twice` after a history of `n` operations: the deflating
+/// writer (write_writer) is five times slower than write_writer_light and differs only in compression, so
+/// it is used where the history is short (every history of <= 3 operations is followed by both writers).
+fn second_save_light(n: usize) -> bool {
+    n > 3
+}
+
+struct Real {
+    hs: Vec<Spreadsheet>,
+    /// handle and decoded content of the save that was the LAST operation of the replayed history
+    last_save: Option<(u8, Content)>,
+}
+
+fn set_text(book: &mut Spreadsheet, sheet: usize, row: u32, m: u8) {
+    let ws = book.get_sheet_mut(&sheet).expect("sheet index");
+    let cell = ws.get_cell_mut((1u32, row));
+    if m == RICH {
+        let mut rt = umya_spreadsheet::RichText::default();
+        for r in RICH_RUNS {
+            let mut e = umya_spreadsheet::TextElement::default();
+            e.set_text(r);
+            rt.add_rich_text_elements(e);
+        }
+        cell.set_rich_text(rt);
+    } else {
+        cell.set_value_string(MARKERS[m as usize]);
+    }
+}
+
+/// operations that do not touch the shared-string table
+fn apply_plain(hs: &mut Vec<Spreadsheet>, op: &Op) {
+    match *op {
+        Op::Set { h, row, m } => set_text(&mut hs[h as usize], 0, row as u32, m),
+        Op::DelCell { h, row } => {
+            hs[h as usize].get_sheet_mut(&0).expect("sheet 0").remove_cell((1u32, row as u32));
+        }
+        Op::RemRow { h, row } => {
+            hs[h as usize].get_sheet_mut(&0).expect("sheet 0").remove_row(&(row as u32), &1);
+        }
+        Op::AddSheet { h, m } => {
+            hs[h as usize].new_sheet(SHEET2).expect("new_sheet");
+            set_text(&mut hs[h as usize], 1, 1, m);
+        }
+        Op::RemSheet { h } => {
+            hs[h as usize].remove_sheet(1).expect("remove_sheet");
+        }
+        Op::CloneH { h } => {
+            let c = hs[h as usize].clone();
+            hs.push(c);
+        }
+        Op::Save { .. } | Op::Reload { .. } => unreachable!(),
+    }
+}
+
+fn guarded<T, F: FnOnce() -> T>(f: F) -> Result<T, String> {
+    std::panic::catch_unwind(std::panic::AssertUnwindSafe(f)).map_err(|e| panic_msg(&e))
+}
+
+/// text cells of a live workbook through public getters
+fn real_cells(b: &Spreadsheet) -> Vec<(String, BTreeMap<(u32, u32), CellTxt>)> {
+    b.get_sheet_collection_no_check()
+        .iter()
+        .map(|ws| {
+            let mut m = BTreeMap::new();
+            for c in ws.get_cell_collection() {
+                let v = c.get_value().to_string();
+                let co = (*c.get_coordinate().get_col_num(), *c.get_coordinate().get_row_num());
+                if c.get_data_type() == "s" {
+                    m.insert(co, CellTxt::Text(v));
+                } else if !v.is_empty() {
+                    m.insert(co, CellTxt::Other(v));
+                }
+            }
+            (ws.get_name().to_string(), m)
+        })
+        .collect()
+}
+
+// ------------------------------------------------------------------------------------------------
+// oracle
+
+struct Finding {
+    clause: &'static str,
+    symptom: String,
+    detail: String,
+}
+
+fn marker_id(x: &str) -> Option<u8> {
+    MARKERS.iter().position(|m| *m == x).map(|i| i as u8)
+}
+
+/// label of a string found in a file saved from handle h although h's model does not contain it
+fn provenance(s: &St, h: usize, x: &str) -> String {
+    let m = match marker_id(x) {
+        None => return "not-a-marker-string/unexplained".into(),
+        Some(m) => m,
+    };
+    let hm = &s.hs[h];
+    let bit = 1u8 << m;
+    let origin = if hm.lost[m as usize] != O_NONE {
+        origin_name(hm.lost[m as usize])
+    } else if s.ever & bit != 0 {
+        "only-in-other-handle"
+    } else {
+        "never-set-anywhere"
+    };
+    let f = hm.family as usize;
+    let via = if hm.self_saved & bit != 0 {
+        "registered-by-earlier-save-of-same-handle"
+    } else if s.fam_saved[f] & bit != 0 {
+        "registered-by-earlier-save-of-clone-relative"
+    } else if s.fam_loaded[f] & bit != 0 {
+        "carried-by-loaded-file"
+    } else {
+        "never-saved"
+    };
+    format!("{}/{}", origin, via)
+}
+
+fn compare_cells(want: &[(String, BTreeMap<(u32, u32), String>)], got: &[(String, BTreeMap<(u32, u32), CellTxt>)], wh: &str, out: &mut Vec<Finding>) {
+    let want_strings: BTreeSet<&String> = want.iter().flat_map(|(_, m)| m.values()).collect();
+    for (name, wm) in want {
+        let gm = match got.iter().find(|(n, _)| n == name) {
+            Some((_, g)) => g,
+            None => {
+                out.push(Finding { clause: "missing-string", symptom: format!("sheet-absent:{}", wh), detail: format!("sheet {:?} of the model is absent {}", name, wh) });
+                continue;
+            }
+        };
+        for (co, text) in wm {
+            match gm.get(co) {
+                Some(CellTxt::Text(t)) if t == text => {}
+                Some(CellTxt::Text(t)) => {
+                    let (clause, sym) = if want_strings.contains(t) {
+                        ("wrong-text", "another-cells-string")
+                    } else if marker_id(t).is_some() {
+                        ("wrong-text", "foreign-string-shown")
+                    } else if t.is_empty() {
+                        ("missing-string", "cell-text-empty")
+                    } else {
+                        ("missing-string", "cell-text-garbled")
+                    };
+                    out.push(Finding { clause, symptom: format!("{}:{}", sym, wh), detail: format!("{}!{:?} shows {:?} {}, model says {:?}", name, co, t, wh, text) });
+                }
+                Some(CellTxt::Dangling(i)) => out.push(Finding { clause: "wrong-text", symptom: format!("dangling-string-index:{}", wh), detail: format!("{}!{:?} refers to shared string {:?} which does not exist; model says {:?}", name, co, i, text) }),
+                Some(CellTxt::Other(v)) => out.push(Finding { clause: "missing-string", symptom: format!("cell-not-text:{}", wh), detail: format!("{}!{:?} is not a text cell {} (raw {:?}); model says {:?}", name, co, wh, v, text) }),
+                None => out.push(Finding { clause: "missing-string", symptom: format!("cell-absent:{}", wh), detail: format!("{}!{:?} is absent {}; model says {:?}", name, co, wh, text) }),
+            }
+        }
+    }
+    for (name, gm) in got {
+        let wm = want.iter().find(|(n, _)| n == name).map(|(_, m)| m);
+        for (co, c) in gm {
+            let in_model = wm.map(|m| m.contains_key(co)).unwrap_or(false);
+            if !in_model {
+                if let CellTxt::Text(t) = c {
+                    out.push(Finding { clause: "foreign-string", symptom: format!("extra-text-cell:{}", wh), detail: format!("{}!{:?} shows {:?} {}, the model has no such cell", name, co, t, wh) });
+                } else if let CellTxt::Dangling(t) = c {
+                    out.push(Finding { clause: "foreign-string", symptom: format!("extra-text-cell:{}", wh), detail: format!("{}!{:?} (dangling index {:?}) {}, the model has no such cell", name, co, t, wh) });
+                }
+            }
+        }
+    }
+}
+
+/// Oracle on one written package.  `s` is the state BEFORE the save (labels must not see this save).
+fn check_package(s: &St, h: usize, c: &Content, bytes: &[u8], out: &mut Vec<Finding>) {
+    let want = s.hs[h].sheets();
+    let want_strings: BTreeSet<String> = want.iter().flat_map(|(_, m)| m.values().cloned()).collect();
+    // every string of the package, with the place it was found
+    let mut found: Vec<(String, String)> = vec![];
+    for x in &c.sst {
+        found.push((x.clone(), String::new()));
+    }
+    for x in &c.inline {
+        found.push((x.clone(), "@inline-string".into()));
+    }
+    for x in &c.str_values {
+        found.push((x.clone(), "@str-cell".into()));
+    }
+    for (part, x) in &c.elsewhere {
+        let cls = if part.starts_with("xl/worksheets/") { "@orphan-sheet-part" } else { "@other-part" };
+        found.push((x.clone(), cls.into()));
+    }
+    let mut seen: BTreeSet<(String, String)> = BTreeSet::new();
+    for (x, loc) in &found {
+        if want_strings.contains(x) || !seen.insert((x.clone(), loc.clone())) {
+            continue;
+        }
+        out.push(Finding {
+            clause: "foreign-string",
+            symptom: format!("{}{}", provenance(s, h, x), loc),
+            detail: format!("package saved from handle {} contains {:?}{} but the handle's text is {:?}; shared strings of the package: {:?}", h, x, loc, want_strings, c.sst),
+        });
+    }
+    let mut sorted = c.sst.clone();
+    sorted.sort();
+    if sorted.windows(2).any(|w| w[0] == w[1]) {
+        out.push(Finding { clause: "duplicate-string", symptom: "shared-string-listed-twice".into(), detail: format!("sharedStrings.xml lists a string twice: {:?}", c.sst) });
+    }
+    for x in &want_strings {
+        if !c.sst.contains(x) && !c.inline.contains(x) && !c.str_values.contains(x) {
+            let sym = if c.has_sst { "absent-from-package" } else { "no-shared-strings-part" };
+            out.push(Finding { clause: "missing-string", symptom: sym.into(), detail: format!("the handle's text {:?} is nowhere in the package (shared strings {:?})", x, c.sst) });
+        }
+    }
+    compare_cells(&want, &c.sheets, "in-file", out);
+    match dump::load_bytes(bytes, true) {
+        Err(e) => out.push(Finding { clause: "readable", symptom: format!("reload-failed:{}", panic_class(&e)), detail: format!("the library cannot read its own package: {}", e) }),
+        Ok(b) => match guarded(|| real_cells(&b)) {
+            Err(e) => out.push(Finding { clause: "readable", symptom: format!("reload-failed:{}", panic_class(&e)), detail: e }),
+            Ok(g) => compare_cells(&want, &g, "on-reload", out),
+        },
+    }
+}
+
+fn check_twice(first: &Content, second: &Content, how: &str, out: &mut Vec<Finding>) {
+    if first.canon() != second.canon() {
+        let mut a = first.sst.clone();
+        let mut b = second.sst.clone();
+        a.sort();
+        b.sort();
+        let sym = if a != b { "shared-strings-differ" } else { "cell-text-differs" };
+        out.push(Finding { clause: "save-not-idempotent", symptom: sym.into(), detail: format!("two saves in a row ({}) differ: first {} / second {}", how, first.canon(), second.canon()) });
+    } else if first.sst_counts != second.sst_counts {
+        out.push(Finding {
+            clause: "save-not-idempotent",
+            symptom: "sst-count-attribute-grows".into(),
+            detail: format!("two saves in a row ({}) of an unchanged workbook: <sst count/uniqueCount> {:?} then {:?} (same strings {:?})", how, first.sst_counts, second.sst_counts, first.sst),
+        });
+    }
+}
+
+// ------------------------------------------------------------------------------------------------
+
+struct C12Machine {
+    a: Alpha,
+    /// rebuilt, still pristine real objects of one node
+    cache: RefCell<Option<(Vec<Op>, Real)>>,
+    counters: RefCell<BTreeMap<String, u64>>,
+    obs: RefCell<HashSet<u64>>,
+    /// violations handed to the explorer per (clause, symptom, tags) class in this pool case; the pool keeps
+    /// three per class anyway, everything beyond EMIT_PER_CLASS is only counted
+    emitted: RefCell<BTreeMap<(String, String, u16), u32>>,
+}
+const EMIT_PER_CLASS: u32 = 4;
+
+/// wall-clock accounting (microseconds per activity, summed over workers; informational only)
+struct Timer<'a> {
+    m: &'a C12Machine,
+    k: &'static str,
+    t: std::time::Instant,
+}
+impl<'a> Timer<'a> {
+    fn new(m: &'a C12Machine, k: &'static str) -> Timer<'a> {
+        Timer { m, k, t: std::time::Instant::now() }
+    }
+}
+impl<'a> Drop for Timer<'a> {
+    fn drop(&mut self) {
+        self.m.count(self.k, self.t.elapsed().as_micros() as u64);
+    }
+}
+
+impl C12Machine {
+    fn new(a: Alpha) -> C12Machine {
+        C12Machine { a, cache: RefCell::new(None), counters: RefCell::new(BTreeMap::new()), obs: RefCell::new(HashSet::new()), emitted: RefCell::new(BTreeMap::new()) }
+    }
+    fn count(&self, k: &str, n: u64) {
+        *self.counters.borrow_mut().entry(k.to_string()).or_insert(0) += n;
+    }
+
+    /// fresh real objects for a history (no oracle; every step of it was checked when it was first taken)
+    fn rebuild(&self, path: &[Op]) -> Result<Real, String> {
+        self.count("rebuilds", 1);
+        let _t = Timer::new(self, "us_rebuild");
+        guarded(|| {
+            let mut r = Real { hs: vec![umya_spreadsheet::new_file()], last_save: None };
+            for (i, op) in path.iter().enumerate() {
+                let last = i + 1 == path.len();
+                match *op {
+                    Op::Save { h, twice } => {
+                        let bytes = dump::save_bytes(&r.hs[h as usize], true)?;
+                        if last {
+                            r.last_save = Some((h, pkg::decode(&bytes, PREFIX)?));
+                        }
+                        if twice {
+                            dump::save_bytes(&r.hs[h as usize], second_save_light(i))?;
+                        }
+                    }
+                    Op::Reload { h } => {
+                        let bytes = dump::save_bytes(&r.hs[h as usize], true)?;
+                        r.hs[h as usize] = dump::load_bytes(&bytes, true)?;
+                    }
+                    _ => apply_plain(&mut r.hs, op),
+                }
+            }
+            Ok::<Real, String>(r)
+        })?
+    }
+
+    fn take_pristine(&self, s: &St) -> Result<Real, String> {
+        let cached = self.cache.borrow_mut().take();
+        match cached {
+            Some((p, r)) if p == s.path => Ok(r),
+            _ => self.rebuild(&s.path),
+        }
+    }
+
+    fn conformance(&self, hs: &[Spreadsheet], s2: &St, after: &str, out: &mut Vec<Finding>) -> bool {
+        let mut ok = true;
+        if hs.len() != s2.hs.len() {
+            out.push(Finding { clause: "model-conformance", symptom: "handle-count".into(), detail: format!("{} real handles, model {}", hs.len(), s2.hs.len()) });
+            return false;
+        }
+        for (i, b) in hs.iter().enumerate() {
+            let want = s2.hs[i].sheets();
+            match guarded(|| real_cells(b)) {
+                Err(e) => {
+                    out.push(Finding { clause: "no-panic", symptom: format!("panic:{}", panic_class(&e)), detail: format!("reading cells of handle {} after {}: {}", i, after, e) });
+                    ok = false;
+                }
+                Ok(got) => {
+                    let mut f = vec![];
+                    compare_cells(&want, &got, "in-memory", &mut f);
+                    let names_w: Vec<&String> = want.iter().map(|x| &x.0).collect();
+                    let names_g: Vec<&String> = got.iter().map(|x| &x.0).collect();
+                    if !f.is_empty() || names_w != names_g {
+                        ok = false;
+                        let d = f.first().map(|x| x.detail.clone()).unwrap_or_else(|| format!("sheets {:?}, model {:?}", names_g, names_w));
+                        out.push(Finding { clause: "model-conformance", symptom: format!("cells-differ-after:{}", after), detail: format!("handle {}: {}", i, d) });
+                    }
+                }
+            }
+        }
+        ok
+    }
+
+    fn observe(&self, s: &St, h: usize, c: &Content) {
+        let key = format!("{:?}|{}", s.hs[h].sheets(), c.canon());
+        self.obs.borrow_mut().insert(fnv(key.as_bytes()));
+    }
+
+    fn step_inner(&self, s: &St, op: &Op, s2: &St, f: &mut Vec<Finding>) -> bool {
+        let opname = op.to_json()["op"].as_str().unwrap_or("").to_string();
+        if !op.mutates_table() {
+            // clones of the pristine objects share its table, which this operation does not touch
+            let base = match self.take_pristine(s) {
+                Ok(r) => r,
+                Err(e) => {
+                    f.push(Finding { clause: "no-panic", symptom: format!("panic:{}", panic_class(&e)), detail: format!("replaying the history: {}", e) });
+                    return false;
+                }
+            };
+            let mut hs = base.hs.clone();
+            *self.cache.borrow_mut() = Some((s.path.clone(), base));
+            if let Err(e) = guarded(|| apply_plain(&mut hs, op)) {
+                f.push(Finding { clause: "no-panic", symptom: format!("panic:{}:{}", opname, panic_class(&e)), detail: e });
+                return false;
+            }
+            return self.conformance(&hs, s2, &opname, f);
+        }
+        let mut real = match self.take_pristine(s) {
+            Ok(r) => r,
+            Err(e) => {
+                f.push(Finding { clause: "no-panic", symptom: format!("panic:{}", panic_class(&e)), detail: format!("replaying the history: {}", e) });
+                return false;
+            }
+        };
+        let (h, twice, reload) = match *op {
+            Op::Save { h, twice } => (h as usize, twice, false),
+            Op::Reload { h } => (h as usize, false, true),
+            _ => unreachable!(),
+        };
+        self.count(if reload { "reloads" } else { "saves" }, 1);
+        let t1 = Timer::new(self, "us_save_light");
+        let saved = dump::save_bytes(&real.hs[h], true);
+        drop(t1);
+        let bytes = match saved {
+            Ok(b) => b,
+            Err(e) => {
+                f.push(Finding { clause: "no-panic", symptom: format!("save-failed:{}", panic_class(&e)), detail: e });
+                return false;
+            }
+        };
+        let t2 = Timer::new(self, "us_decode");
+        let decoded = pkg::decode(&bytes, PREFIX);
+        drop(t2);
+        let content = match decoded {
+            Ok(c) => c,
+            Err(e) => {
+                f.push(Finding { clause: "well-formed", symptom: format!("package-undecodable:{}", panic_class(&e)), detail: e });
+                return false;
+            }
+        };
+        self.observe(s, h, &content);
+        let n0 = f.len();
+        let t3 = Timer::new(self, "us_oracle_incl_library_reload");
+        check_package(s, h, &content, &bytes, f);
+        drop(t3);
+        let leaks = f[n0..].iter().filter(|x| x.clause == "foreign-string").count();
+        self.count(if leaks > 0 { "packages_with_foreign_strings" } else { "packages_clean" }, 1);
+        for x in f[n0..].iter().filter(|x| x.clause == "foreign-string") {
+            self.count(&format!("foreign:{}", x.symptom), 1);
+        }
+        // law: save(h); save(h)
+        if !reload {
+            if let Some((h0, c0)) = &real.last_save {
+                if *h0 as usize == h {
+                    self.count("save_twice_checks", 1);
+                    check_twice(c0, &content, "consecutive save operations of the history", f);
+                }
+            }
+            if twice {
+                let _t4 = Timer::new(self, "us_second_save_and_decode");
+                let light2 = second_save_light(s.path.len());
+                self.count(if light2 { "second_saves_write_writer_light" } else { "second_saves_write_writer" }, 1);
+                match dump::save_bytes(&real.hs[h], light2).and_then(|b| pkg::decode(&b, PREFIX)) {
+                    Err(e) => f.push(Finding { clause: "no-panic", symptom: format!("save-failed:{}", panic_class(&e)), detail: format!("second save: {}", e) }),
+                    Ok(c2) => {
+                        self.count("save_twice_checks", 1);
+                        check_twice(&content, &c2, if light2 { "write_writer_light twice" } else { "write_writer_light then write_writer" }, f);
+                    }
+                }
+            }
+        }
+        if reload {
+            match dump::load_bytes(&bytes, true) {
+                Ok(b) => real.hs[h] = b,
+                Err(e) => {
+                    f.push(Finding { clause: "readable", symptom: format!("reload-failed:{}", panic_class(&e)), detail: e });
+                    return false;
+                }
+            }
+        }
+        // a save must leave every workbook as it was; a reload must give back the model's cells
+        self.conformance(&real.hs, s2, &opname, f)
+    }
+}
+
+impl Machine for C12Machine {
+    type S = St;
+    type Op = Op;
+    fn ops(&self, s: &St, _depth: usize) -> Vec<Op> {
+        enabled_ops(&self.a, s)
+    }
+    fn op_json(&self, op: &Op) -> Value {
+        op.to_json()
+    }
+    fn step(&self, s: &St, op: &Op, out: &mut Vec<Violation>) -> Option<St> {
+        let s2 = model_step(s, op);
+        let mut f = vec![];
+        let ok = self.step_inner(s, op, &s2, &mut f);
+        let tags = s2.tags();
+        for x in f {
+            self.count("oracle_failures_total", 1);
+            let mut em = self.emitted.borrow_mut();
+            let n = em.entry((x.clause.to_string(), x.symptom.clone(), s2.kinds)).or_insert(0);
+            *n += 1;
+            if *n <= EMIT_PER_CLASS {
+                out.push(Violation::new(x.clause, &x.symptom, &tags, Value::Null, x.detail));
+            }
+        }
+        if ok {
+            Some(s2)
+        } else {
+            None
+        }
+    }
+    fn key(&self, s: &St) -> u128 {
+        e2::key_of(&format!("{:?}", s.path))
+    }
+}
+
+// ------------------------------------------------------------------------------------------------
+// pool space: case 0 explores the first K layers from the root; every node of layer K is the root of one
+// further case (its history is replayed silently first).
+
+fn prefix_len(a: &Alpha) -> usize {
+    if a.d >= 6 {
+        3
+    } else {
+        2
+    }
+}
+
+struct Tree {
+    a: Alpha,
+    /// layer-K nodes: (index path, state)
+    prefixes: Vec<(Vec<u32>, St)>,
+}
+
+impl Tree {
+    fn new(a: Alpha) -> Tree {
+        let mut prefixes = vec![];
+        let k = prefix_len(&a);
+        if a.d > k {
+            let mut layer = vec![(vec![], St::root())];
+            for _ in 0..k {
+                let mut next = vec![];
+                for (ip, s) in &layer {
+                    for (i, op) in enabled_ops(&a, s).iter().enumerate() {
+                        let mut ip2: Vec<u32> = ip.clone();
+                        ip2.push(i as u32);
+                        next.push((ip2, model_step(s, op)));
+                    }
+                }
+                layer = next;
+            }
+            prefixes = layer;
+        }
+        Tree { a, prefixes }
+    }
+}
+
+fn flush(m: &C12Machine, sink: &mut Sink) {
+    for (k, n) in m.counters.borrow().iter() {
+        sink.count(k, *n);
+    }
+    sink.count("distinct_observations_per_case_sum", m.obs.borrow().len() as u64);
+}
+
+impl Space for Tree {
+    fn len(&self) -> u64 {
+        1 + self.prefixes.len() as u64
+    }
+    fn describe(&self, i: u64) -> Value {
+        if i == 0 {
+            json!({"kind": "root-layers", "depth": prefix_len(&self.a).min(self.a.d)})
+        } else {
+            let (ip, s) = &self.prefixes[i as usize - 1];
+            json!({"kind": "subtree", "prefix": s.path.iter().map(|o| o.to_json()).collect::<Vec<_>>(), "prefix_ipath": ip, "depth": self.a.d - prefix_len(&self.a)})
+        }
+    }
+    fn tags(&self, i: u64) -> Vec<String> {
+        if i == 0 {
+            vec!["root".into()]
+        } else {
+            self.prefixes[i as usize - 1].1.tags().iter().map(|s| s.to_string()).collect()
+        }
+    }
+    fn run(&self, i: u64, sink: &mut Sink) {
+        let m = C12Machine::new(self.a);
+        if i == 0 {
+            e2::bfs(&m, St::root(), json!({"prefix": [], "prefix_ipath": []}), None, prefix_len(&self.a).min(self.a.d), u64::MAX, sink);
+        } else {
+            let (ip, s) = &self.prefixes[i as usize - 1];
+            let desc = json!({"prefix": s.path.iter().map(|o| o.to_json()).collect::<Vec<_>>(), "prefix_ipath": ip});
+            e2::bfs(&m, s.clone(), desc, None, self.a.d - prefix_len(&self.a), u64::MAX, sink);
+        }
+        flush(&m, sink);
+    }
+}
+
+/// "tree": four plain markers.  "rich": one plain marker + the rich-text marker (two runs), so that the
+/// <si><r><t> path of the table is driven through the same histories on a smaller alphabet.
+fn alpha(tier: Tier, id: &str) -> Option<Alpha> {
+    match (id, tier) {
+        ("tree", Tier::Quick) => Some(Alpha { d: 5, markers: &[0, 1, 2, 3], sheet_markers: [0, 3] }),
+        ("tree", Tier::Thorough) => Some(Alpha { d: 6, markers: &[0, 1, 2, 3], sheet_markers: [0, 3] }),
+        ("rich", Tier::Quick) => Some(Alpha { d: 4, markers: &[0, RICH], sheet_markers: [0, RICH] }),
+        ("rich", Tier::Thorough) => Some(Alpha { d: 6, markers: &[0, RICH], sheet_markers: [0, RICH] }),
+        _ => None,
+    }
+}
+
+pub fn space(tier: Tier, id: &str) -> Option<Box<dyn Space>> {
+    alpha(tier, id).map(|a| Box::new(Tree::new(a)) as Box<dyn Space>)
+}
+
+fn replay(tier: Tier, case: &Value) -> Vec<Violation> {
+    let mut ipath: Vec<u32> = vec![];
+    for key in [&case["init"]["prefix_ipath"], &case["ipath"]] {
+        if let Some(a) = key.as_array() {
+            ipath.extend(a.iter().filter_map(|x| x.as_u64()).map(|x| x as u32));
+        }
+    }
+    let a = match alpha(tier, case["_space"].as_str().unwrap_or("tree")) {
+        Some(a) => a,
+        None => {
+            eprintln!("replay: unknown space");
+            return vec![];
+        }
+    };
+    let m = C12Machine::new(a);
+    let n = ipath.len();
+    e2::replay_path(&m, St::root(), &ipath).into_iter().filter(|v| v.case["path"].as_array().map(|a| a.len()) == Some(n)).collect()
+}
+
+fn run(ctx: &Ctx) -> i32 {
+    let a = alpha(ctx.tier, "tree").unwrap();
+    let ar = alpha(ctx.tier, "rich").unwrap();
+    let tree = Tree::new(a);
+    let rich = Tree::new(ar);
+    let n_prefix = tree.prefixes.len();
+    let n_prefix_rich = rich.prefixes.len();
+    run_e1(
+        ctx,
+        E1Spec {
+            spaces: vec![("tree", Box::new(tree)), ("rich", Box::new(rich))],
+            cfg: PoolCfg { chunk: 1, case_timeout: std::time::Duration::from_secs(60), ..Default::default() },
+            level: "model_checking",
+            rule: format!(
+                "complete history tree: every sequence of D={} operations over the alphabet whose last operation is a save (all shorter histories and all their saves are inner nodes); at the last layer only save operations are expanded because no other operation is observed by an oracle. No state merging: the content of the shared-string table is not observable through the public API without a save (which changes it), so the state key is the history itself (option (a) of the design). Because Spreadsheet::clone() shares the table and a save mutates it, a node's real objects cannot be forked by cloning: they are rebuilt from new_file() by replaying the history before every save/reload; the other operations run on clones of the rebuilt objects and are checked against the reference model through public getters. Two spaces: 'tree' (4 plain markers) and 'rich' (1 plain marker + 1 rich-text marker of two runs, D={}). Case 0 of a space = layers 1..{} from the root; one pool case per layer-{} node ({} + {} cases). states = number of histories (distinct keys); transitions = executed operations, each validated against the model; save-twice law checked for consecutive saves inside histories and by a second save at every last-layer save (write_writer after histories of <= 3 operations, write_writer_light after longer ones).",
+                a.d, ar.d, prefix_len(&a), prefix_len(&a), n_prefix, n_prefix_rich
+            ),
+            alphabets: json!({
+                "markers": a.markers.iter().map(|m| MARKERS[*m as usize]).collect::<Vec<_>>(),
+                "markers_rich_space": ar.markers.iter().map(|m| MARKERS[*m as usize]).collect::<Vec<_>>(),
+                "cells": ["Sheet1!A1", "Sheet1!A2", "S2!A1"],
+                "operations": ["set_text(h, A1|A2, marker)", "remove_cell(h, A1|A2)", "remove_row(h, 1|2)", "add_sheet_with_text(h, S2, marker in sheet_markers)", "remove_sheet(h, S2)", "clone(h)", "save(h)", "reload(h)"],
+                "sheet_markers": a.sheet_markers.iter().map(|m| MARKERS[*m as usize]).collect::<Vec<_>>(),
+                "max_enabled_operations_per_state": 3*8 + 3*2 + 3*2 + 3*2 + 3 + 3,
+            }),
+            bounds: json!({"history_length": a.d, "max_handles": MAX_HANDLES, "rows": 2, "sheets": 2}),
+            exhaustive: true,
+            caps_hit: vec![],
+            assumptions: vec![
+                "operations that cannot change the state are not enabled (set_text with the text already there, remove_cell/remove_row on empty cells/rows)".into(),
+                "save = write_writer_light into memory; the second save of the last-layer law uses write_writer (deflate) after histories of at most 3 operations and write_writer_light after longer ones (both call make_buffer; they differ in compression only)".into(),
+                "provenance labels (symptoms) are computed from the history only; the verdict (string set of the package == string set of the model) does not depend on them".into(),
+            ],
+            min_distinct: 1000,
+        },
+    )
 }
